@@ -162,7 +162,20 @@ func (api *API) mapDecodeBasedOnType(ctx context.Context, mapVal any, value refl
 		if sliceValueType.AssignableTo(bytesType) {
 			fieldValStr, ok := mapVal.(string)
 			if !ok {
-				return ierrors.Errorf("non string value in map when decoding a byte array, got %T instead", mapVal)
+				// a byte array whose type settings carry an object type is written by the encoder as an object
+				// holding the hex string (mapEncodeSlice), also when it is not behind a pointer.
+				m, isMap := mapVal.(map[string]any)
+				if ts.ObjectType() == nil || !isMap {
+					return ierrors.Errorf("non string value in map when decoding a byte array, got %T instead", mapVal)
+				}
+				fieldKey := keyDefaultSliceArray
+				if ts.fieldKey != nil {
+					fieldKey = *ts.fieldKey
+				}
+				fieldValStr, ok = m[fieldKey].(string)
+				if !ok {
+					return ierrors.Errorf("non string value for key %s when decoding a byte array, got %T instead", fieldKey, m[fieldKey])
+				}
 			}
 			byteSlice, err := DecodeHex(fieldValStr)
 			if err != nil {
